@@ -615,6 +615,12 @@ pub struct Case {
     pub window: usize,
 }
 
+impl Case {
+    pub fn clone_case(&self) -> Case {
+        Case { label: self.label.clone(), frame: self.frame.clone(), original: self.original.clone(), has_checksum: self.has_checksum, window: self.window }
+    }
+}
+
 pub fn gen_case(rng: &mut Rng, max: usize, i: usize) -> Case {
     let kind = gen::DATA_KINDS[i % gen::DATA_KINDS.len()];
     let len = gen::pick_len(rng, max);
@@ -636,8 +642,22 @@ pub fn run(opts: &Opts) -> Run {
     let mut rng = Rng::new(opts.seed ^ 0xdec0de);
     let n = if opts.thorough { 600 } else { 36 };
     let max = if opts.thorough { 300_000 } else { 30_000 };
-    for i in 0..n {
-        let c = gen_case(&mut rng, max, i);
+    // the repository's decode corpus first (frames from zstd's decodecorpus generator)
+    let corpus = gen::repo_corpus(if opts.thorough { 200_000 } else { 10_000 });
+    let take = if opts.thorough { corpus.len() } else { 14 };
+    let start = if corpus.is_empty() { 0 } else { (opts.seed as usize * 13) % corpus.len() };
+    let mut corpus_cases: Vec<Case> = Vec::new();
+    for k in 0..take.min(corpus.len()) {
+        let (name, f, o) = &corpus[(start + k) % corpus.len()];
+        // single-frame files only for the driver programs (they know the frame length)
+        if crate::gen::zstd_decode(f, None, 1 << 26).as_deref() == Some(&o[..]) {
+            corpus_cases.push(Case { label: format!("repo corpus {}", name), frame: f.clone(), original: o.clone(), has_checksum: f.len() > 4 && f[4] & 4 != 0, window: 1 << 17 });
+        }
+    }
+    run.stat("repo_corpus_frames", corpus_cases.len() as u64);
+    let n_corpus = corpus_cases.len();
+    for i in 0..(n + n_corpus) {
+        let c = if i < n_corpus { corpus_cases[i].clone_case() } else { gen_case(&mut rng, max, i) };
         run.stat("frames", 1);
         run.stat("frame_bytes", c.frame.len() as u64);
         if i < 3 {
